@@ -1667,7 +1667,12 @@ std::optional<ChunkData> Node::receive_chunk(const std::string& manifest_uri, Ch
     }
 
     crypto::Key chunk_key{};
-    chunk_key.bytes = crypto::Shamir::combine(shares, manifest.threshold);
+    try {
+        chunk_key.bytes = crypto::Shamir::combine(shares, manifest.threshold);
+    } catch (const std::invalid_argument&) {
+        // Malformed share set (e.g. repeated indices) in a manifest supplied by a peer: reject the replica.
+        return std::nullopt;
+    }
 
     const auto plaintext = crypto::CryptoManager::decrypt_with_key(chunk_key,
                                                                   manifest.chunk_id,
@@ -1838,9 +1843,13 @@ std::optional<ChunkData> Node::fetch_chunk(const ChunkId& chunk_id) {
                 shares.push_back(share);
             }
 
-            const auto secret_bytes = crypto::Shamir::combine(shares, shard_threshold);
             crypto::Key chunk_key{};
-            chunk_key.bytes = secret_bytes;
+            try {
+                chunk_key.bytes = crypto::Shamir::combine(shares, shard_threshold);
+            } catch (const std::invalid_argument&) {
+                // The recorded share set cannot reconstruct a key (e.g. repeated indices): nothing to return.
+                return std::nullopt;
+            }
 
             const crypto::Nonce nonce{record->nonce};
             const std::span<const std::uint8_t> ciphertext{record->data};
